@@ -118,6 +118,20 @@ pub fn gen_world_cfg(s: &mut Src, prof: &Profile) -> WorldCfg {
     if pairs.is_empty() {
         pairs.push(PairCfg { assets: [AssetId::Native(0), AssetId::Native(1)], commission: None, whitelist: vec![0, 1, 2, 3], minimum: [0, 0], lp_decimals: None });
     }
+    // One world in eight (not in the route-centred profiles, DESIGN F12) names its last native denom exactly
+    // like the first cw20 token's contract address: the two are different assets (the KIND decides), and
+    // half of these worlds trade them against each other in their first pair.
+    let mut denoms: Vec<String> = vec![];
+    if !prof.connected && s.chance(1, 8) {
+        denoms = DENOMS.iter().take(n_nat).map(|d| d.to_string()).collect();
+        denoms[n_nat - 1] = FIRST_TOKEN_ADDR.to_string();
+        if s.bool() {
+            let (a, b) = (AssetId::Token(0), AssetId::Native(n_nat - 1));
+            if !pairs.iter().skip(1).any(|p| (p.assets[0] == a && p.assets[1] == b) || (p.assets[0] == b && p.assets[1] == a)) {
+                pairs[0].assets = if s.bool() { [a, b] } else { [b, a] };
+            }
+        }
+    }
     WorldCfg {
         native_decimals,
         token_decimals,
@@ -126,7 +140,7 @@ pub fn gen_world_cfg(s: &mut Src, prof: &Profile) -> WorldCfg {
         n_bystanders: 2,
         initial_balance: 1u128 << 122,
         allowance: 1u128 << 124,
-        denoms: vec![],
+        denoms,
         unregistered: vec![],
     }
 }
